@@ -233,6 +233,7 @@ impl RouterSocket {
     };
 
     if self.framing.is_manual() {
+      Self::check_room_for_identity(&raw_zmtp_message)?;
       return Ok((identity_blob, raw_zmtp_message));
     }
 
@@ -261,7 +262,18 @@ impl RouterSocket {
       }
     }
 
+    Self::check_room_for_identity(&raw_zmtp_message)?;
     Ok((identity_blob, raw_zmtp_message))
+  }
+
+  /// The application sees [identity, payload...]; a payload that leaves no room for the identity is dropped.
+  fn check_room_for_identity(payload: &FrameBatch) -> Result<(), ZmqError> {
+    if payload.len() >= FrameBatch::MAX_FRAMES {
+      return Err(ZmqError::ProtocolViolation(
+        "ROUTER: peer sent a multipart message with more frames than supported".into(),
+      ));
+    }
+    Ok(())
   }
 
   fn transform_qitem_to_app_frames(identity_blob: Blob, payload_frames_vec: FrameBatch) -> FrameBatch {
@@ -550,6 +562,11 @@ impl ISocket for RouterSocket {
       return Err(ZmqError::InvalidMessage(
         "ROUTER send_multipart requires at least an identity frame.".into(),
       ));
+    }
+
+    // Auto-framing inserts an empty delimiter after the identity, which must still fit the batch.
+    if frames.len() >= FrameBatch::MAX_FRAMES && !self.framing.is_manual() {
+      return Err(FrameBatch::too_many_frames_error());
     }
 
     // The first frame is the destination identity.
